@@ -125,12 +125,12 @@ func (r *Run) cancel() {
 	h.Gates.ReleaseAll()
 	time.Sleep(2 * time.Millisecond)
 	r.Final.Sent, r.Final.Commits, r.Final.Rounds = h.NSent(), h.NCommits(), h.NRounds()
-	for i := 0; i < 50; i++ {
+	for i := 0; i < 300; i++ { // settle retries (up to ~1.5 s): a goroutine that is on its way out is not a leak
 		r.EndGoroutines = LibraryGoroutines()
 		if len(r.EndGoroutines) <= len(r.StartGoroutines) {
 			break
 		}
-		time.Sleep(2 * time.Millisecond)
+		time.Sleep(5 * time.Millisecond)
 	}
 }
 
